@@ -351,7 +351,7 @@ func (r *Runner) advSoundness(l *Line) lineResult {
 		fmt.Printf("##HANG\n")
 		os.Exit(3)
 	}
-	wd := newWatchdog(nw, 5*time.Second, hang)
+	wd := newWatchdog(nw, 20*time.Second, hang)
 	for wi := 0; wi < nw; wi++ {
 		wg.Add(1)
 		go func(wi int) {
@@ -758,9 +758,9 @@ func replayAdvOne(cfg Config, v *Violation) int {
 		}
 		fmt.Println("NOT-REPRODUCED (", out, ")")
 		return 0
-	case <-time.After(5 * time.Second):
+	case <-time.After(20 * time.Second):
 		if v.Fail.Cat == "hang" {
-			fmt.Printf("REPRODUCED property=%s api=%s hang: no return within 5s\n", v.Property, c.API)
+			fmt.Printf("REPRODUCED property=%s api=%s hang: no return within 20s\n", v.Property, c.API)
 			return 1
 		}
 		fmt.Println("NOT-REPRODUCED (hang instead of", v.Fail.Cat, ")")
